@@ -188,10 +188,17 @@ class C19(Check):
         q2r = os.path.join(wd, "out.q2r")
         rawa = os.path.join(wd, "out.rawa")
         ok = {}
-        for mode, args, source, out in (("raw", ["-r"], img, raw), ("qcow", ["-Q"], img, qcow), ("q2r", ["-r"], qcow, q2r), ("rawa", ["-ra"], img, rawa)):
-            if mode not in spec["modes"] or (mode == "q2r" and not ok.get("qcow")):
+        qcowa = os.path.join(wd, "out.qcowa")
+        qa2r = os.path.join(wd, "out.qa2r")
+        for mode, args, source, out in (("raw", ["-r"], img, raw), ("qcow", ["-Q"], img, qcow), ("q2r", ["-r"], qcow, q2r), ("rawa", ["-ra"], img, rawa),
+                                        ("qcowa", ["-Qa"], img, qcowa), ("qa2r", ["-r"], qcowa, qa2r)):
+            if mode in ("qcowa", "qa2r"):
+                # the all-data flavour of the qcow2 round trip rides along with the all-data raw image
+                if "rawa" not in spec["modes"] or not ok.get("rawa") or (mode == "qa2r" and not ok.get("qcowa")):
+                    continue
+            elif mode not in spec["modes"] or (mode == "q2r" and not ok.get("qcow")):
                 continue
-            if spec["big"] and mode == "rawa":
+            if spec["big"] and mode in ("rawa", "qcowa", "qa2r"):
                 continue
             r = run_e2image(mode, args, source, out)
             if r.san or r.signal or r.timeout:
@@ -245,6 +252,17 @@ class C19(Check):
                 o.stats["probe.qcow_roundtrip_identical"] += 1
                 if spec["big"]:
                     o.stats["probe.qcow_l2_cache_overflow_geometry"] += 1
+        if ok.get("rawa") and ok.get("qa2r"):
+            o.evals += 1
+            a, b = open(rawa, "rb").read(), open(qa2r, "rb").read()
+            if a != b:
+                L = min(len(a), len(b))
+                nd = [k // bs for k in range(0, L, bs) if a[k:k + bs] != b[k:k + bs]]
+                o.violate("qcowa|roundtrip_differs", "all-data qcow2 -> raw differs from the directly produced all-data raw image in %d block(s)%s, "
+                          "first fs block %s of %d: %s" % (len(nd), " and in length (%d vs %d)" % (len(b), len(a)) if len(a) != len(b) else "",
+                                                           nd[0] if nd else None, len(a) // bs, where), skey="qcowa|roundtrip")
+            else:
+                o.stats["probe.qcowa_roundtrip_identical"] += 1
         if ok.get("rawa"):
             o.evals += 1
             ad = open(rawa, "rb").read()
